@@ -199,7 +199,7 @@ class PublisherFanout(Bounded):
     scope = ("observer tuples of length 0..5 (quick) / 0..6 (thorough) over kinds {G never raises, R raises on every "
              "event, O raises on odd events, A raises on events and on reports}, raising 3 Exception subclasses; "
              "streams of 0..3 (quick) / 0..4 events; published as a plain dict, a dict with log_trace, or through "
-             "Logger.info; thorough adds seeded random tuples of up to 8 observers and 12 events. BaseException "
+             "Logger.info; thorough adds 1000 seeded random tuples of 6..8 observers and up to 12 events. BaseException "
              "raisers, re-entrant logging and observers that mutate the publisher are not in this class.")
     functions = ["LogPublisher.__init__", "LogPublisher.__call__", "LogPublisher._errorLoggerForObserver",
                  "Logger.failure"]
@@ -212,9 +212,9 @@ class PublisherFanout(Bounded):
                     for mode in ("dict", "trace", "logger"):
                         yield ("".join(kinds), ne, mode)
         if tier != "quick":
-            for _ in range(3000):
-                n = rng.randint(4, 8)
-                yield ("".join(rng.choice("GGROA") for _ in range(n)), rng.randint(1, 12),
+            for _ in range(1000):
+                n = rng.randint(6, 8)
+                yield ("".join(rng.choice("GGGROA") for _ in range(n)), rng.randint(1, 12),
                        rng.choice(("dict", "trace", "logger")))
 
     def nontrivial(self, case):
